@@ -513,6 +513,8 @@ def _group_body(prog, cu, bk):
     the closure specialised on the captured fn, with that fn and the private helpers inlined"""
     import r_table
     clo = prog.by_id.get(cu)
+    if clo is not None and not bk and getattr(prog, '_handler_views', False):
+        return _hbody(prog, cu)       # second reading: private helpers (`strings_of(left, right)?`) opened
     if clo is None or not bk:
         return clo
     consts = {i: r_table.FN_CONSTS[getattr(v, 'key', None) or v] for i, v in bk if isinstance(v, str) and (getattr(v, 'key', None) or v) in r_table.FN_CONSTS}
@@ -599,6 +601,8 @@ def rule_fold(prog, rows):
                     io = single_origin(trace_operand(body, o.data.args[0], through_calls=SIDE_THROUGH))
                     if io is not None and io.kind == 'callres' and r_order.FORWARD_NEXT_RE.match(io.data.rdef or ''):
                         kinds.add('I'); continue
+                if o.kind == 'callres' and r_order.FORWARD_NEXT_RE.match(o.data.rdef or '') and o.proj[:2] == (('dc', 'Some'), ('f', 0)):
+                    kinds.add('I'); continue      # an item drawn from a vector of already converted numbers (`for num in numbers(params)?`)
                 if o.kind == 'callres' and (o.data.callee or '').endswith('::unwrap'):
                     kinds.add('A'); continue
                 kinds.add('A')
